@@ -97,6 +97,41 @@ def replay(path):
     except Exception as ex:  # noqa
         print(f"replay error: {type(ex).__name__}: {ex}")
         return 3
+    # C02 / C08: rebuild the program, compile it with the real backend and run the emitted C natively
+    # (gcc, AddressSanitizer / UBSan) on the recorded inputs
+    if prop in ("C02", "C08") and r.get("seed"):
+        try:
+            import os
+            from .kf_predicates import _c02_program
+            from .check_c02 import replay as native_replay
+            from .llsym.harness import lower_to_ir, CompileFailure, uses_isa
+            from exo.API import compile_procs_to_strings
+
+            q = _c02_program(r)
+            if q is None:
+                print("the program can no longer be built (the operation now raises)")
+                return 0
+            print("program:\n" + str(q))
+            tag = f"replay_{os.getpid()}"
+            if r.get("kind") == "c_compile_error":
+                c_text, h_text = compile_procs_to_strings([q], "t.h")
+                try:
+                    lower_to_ir(c_text, h_text, tag, extra_flags=("-mavx2", "-mfma") if uses_isa(c_text) else ())
+                except CompileFailure as cf:
+                    print("REPRODUCED: the emitted C is rejected by the C compiler:\n" + str(cf)[-600:])
+                    return 1
+                print("not reproduced: the emitted C compiles")
+                return 0
+            det = r.get("detail") or {}
+            if isinstance(det, dict) and det.get("inputs"):
+                v = dict(det)
+                v["model"] = det["inputs"]
+                ok, desc = native_replay(q, v, prop, tag)
+                print(("REPRODUCED: " if ok else "not reproduced: ") + str(desc))
+                return 1 if ok else 0
+        except Exception as ex:  # noqa
+            print(f"replay error: {type(ex).__name__}: {ex}")
+            return 3
     # records that carry their own concrete evidence (native run, expression values, history)
     for k in ("detail", "assignment", "old", "new", "old_value", "new_value", "src", "wrapper", "message", "replay"):
         if r.get(k) is not None:
